@@ -120,7 +120,7 @@ Definition keep_row (only_diff : bool) (chpaths : list str) (r : jrow) : bool :=
 
 (* ---- construct.add_path_to_tree with sep="/" on a tree given by its node set ---------------------- *)
 
-Definition nid := list str.                   (* a node of the rebuilt tree: its original components *)
+Notation nid := (list str) (only parsing).   (* a node of the rebuilt tree: its original components *)
 Definition nid_eqb : nid -> nid -> bool := list_eqb str_eqb.
 
 Fixpoint prefixes_from {A} (done todo : list A) : list (list A) :=
@@ -234,9 +234,9 @@ Definition marked_rows (sep : str) (al : list str) (t1 t2 : tree) : list jrow :=
   let added := map jpath (filter (fun r => is_right (jind r)) both) in
   map (fun r => set_path r (add_suffix sep removed added (jpath r))) both.
 
-Definition get_tree_diff (sep : str) (t1 t2 : tree) (only_diff : bool) (al : list str)
+(* helper.py:383-424 on the marked table *)
+Definition diff_of_rows (sep : str) (rows : list jrow) (only_diff : bool) (al : list str)
   : res (option (list onode)) :=
-  let rows := marked_rows sep al t1 t2 in
   let chs := changes_from 0 al rows in
   let chpaths := map fst chs in
   let kept := map jpath (filter (keep_row only_diff chpaths) rows) in
@@ -258,3 +258,7 @@ Definition get_tree_diff (sep : str) (t1 t2 : tree) (only_diff : bool) (al : lis
           end
       end
   end.
+
+Definition get_tree_diff (sep : str) (t1 t2 : tree) (only_diff : bool) (al : list str)
+  : res (option (list onode)) :=
+  diff_of_rows sep (marked_rows sep al t1 t2) only_diff al.
